@@ -299,3 +299,19 @@ def big_shape_s(draw, kind):
 # view areas with both sides of 32 cells and more (array paths, printing thresholds and integer widths change around there);
 # used with the observation functions that do not trace rays (those have their own large-view checks)
 HUGE_AREAS = [[[-31, 0], [-15, 16]], [[-32, 0], [-16, 16]], [[-39, 0], [-20, 20]], [[-32, 0], [-31, 2]], [[-63, 0], [-16, 16]]]
+
+
+def embed(d, H, W, oy, ox, fill='F'):
+    """the small world placed inside an H x W field of `fill` at offset (oy, ox); the agent moves with it"""
+    h, w = len(d['grid']), len(d['grid'][0])
+    assert oy + h <= H and ox + w <= W
+    grid = [[fill] * W for _ in range(H)]
+    for y in range(h):
+        for x in range(w):
+            grid[oy + y][ox + x] = d['grid'][y][x]
+    a = list(d['agent'])
+    a[0], a[1] = a[0] + oy, a[1] + ox
+    return {'grid': grid, 'agent': a}
+
+
+HUGE_CENTRED = [[-20, 12], [-16, 16]]      # 33 x 33 cells with the agent well inside: a small world around it lies in the view's interior
